@@ -52,10 +52,18 @@ func writeHeaders(w http.ResponseWriter, headers map[string][]string) {
 		}
 	}
 
+	hasContentType := false
 	for key, values := range headers {
+		if strings.EqualFold(key, "Content-Type") {
+			hasContentType = true
+		}
 		for _, value := range values {
 			w.Header().Add(key, value)
 		}
+	}
+	// configured headers that do not say otherwise leave the body what it is: JSON
+	if !hasContentType {
+		w.Header().Set("Content-Type", "application/json")
 	}
 }
 
